@@ -1518,6 +1518,11 @@ func (pc *pCtx) f1Implementors() {
 
 
 // readOnlyMethods: methods of library types that do not change the receiver (or whose receiver is designed to be shared).
+// statefulValueTypes: struct values whose value-receiver methods work on shared mutable state behind a pointer
+// (golang.org/x/text/cases.Caser keeps its transformer's buffers: "a Caser may be stateful and should not be shared
+// between goroutines").
+var statefulValueTypes = map[string]bool{"golang.org/x/text/cases.Caser": true}
+
 var readOnlyTypes = map[string]bool{
 	"regexp.Regexp": true, "text/template.Template": true, "html/template.Template": true, "time.Location": true,
 	"encoding/base64.Encoding": true, "math/big.Float": false,
@@ -1543,10 +1548,19 @@ func (pc *pCtx) p3SharedObjects(s *pSite) {
 					continue
 				}
 				pt, isPtr := f.Signature.Recv().Type().Underlying().(*types.Pointer)
-				if !isPtr || isRoPkg(pkgPathOf(f)) || isSyncType(pt.Elem()) {
+				var elemT types.Type
+				if isPtr {
+					elemT = pt.Elem()
+				} else if nt, ok := f.Signature.Recv().Type().(*types.Named); ok && nt.Obj().Pkg() != nil && statefulValueTypes[nt.Obj().Pkg().Path()+"."+nt.Obj().Name()] {
+					// a value type that carries a pointer to mutable state: its value-receiver methods mutate what copies share
+					elemT = nt
+				} else {
 					continue
 				}
-				named, _ := pt.Elem().(*types.Named)
+				if isRoPkg(pkgPathOf(f)) || isSyncType(elemT) {
+					continue
+				}
+				named, _ := elemT.(*types.Named)
 				tname := ""
 				if named != nil && named.Obj().Pkg() != nil {
 					tname = named.Obj().Pkg().Path() + "." + named.Obj().Name()
